@@ -57,9 +57,15 @@ JudgeRhat(e) ==
          (IF e.res = "ok" /\ IsBig(e.v) /\ BSqrtAgrees(e.v, R2[1], R2[2], U, Tol) THEN "ok" ELSE "P:rhat")
   ELSE IF v0r = None THEN "X:no-base-call"
   ELSE IF e.res = "ok" /\ IsBig(e.v) /\ BNear(e.v, v0r, Tol) THEN "ok" ELSE "P:rhat-invariance"
+\* "equal their textbook formulas": the estimator the function's docstring cites (BDA3 / Stan reference manual 2.14: multi-chain
+\* autocorrelation through the variogram with lag-unbiased autocovariances, summed up to the first negative term), transcribed
+\* in ChainDiag.tla and evaluated here in exact rational arithmetic.  (Scope decision of DESIGN 5/C16 revised: this was an M:
+\* clause; a change that made the value deviate from the cited estimator by up to 8% was then only reported as drift.)
 JudgeEss(e) ==
   IF ~EC.def \/ EC.bnd THEN "ok"
-  ELSE IF e.ident THEN (IF e.res = "ok" /\ IsBig(e.v) THEN "ok" ELSE "P:ess-invariance")
+  ELSE IF e.ident THEN (IF ~(e.res = "ok" /\ IsBig(e.v)) THEN "P:ess-invariance"
+                        ELSE IF ~BFracAgrees(e.v, EC.num, EC.den, U, Tol) THEN "P:ess-is-the-cited-estimator"
+                        ELSE "ok")
   ELSE IF v0e = None THEN "X:no-base-call"
   ELSE IF e.res = "ok" /\ IsBig(e.v) /\ BNear(e.v, v0e, Tol) THEN "ok" ELSE "P:ess-invariance"
 JudgeP(e) ==
